@@ -59,12 +59,12 @@ pub fn apply_op<T: Subj>(s: &mut T, st: &Step, r: &Res) -> String {
             String::new()
         }
         Kind::Extend => {
-            let it = SimIter::new(&r.items, st.form % 6, st.b, !st.bit, r.panic_after);
+            let it = SimIter::new(&r.items, st.form % 8, st.b, !st.bit, r.panic_after);
             s.extend(it);
             String::new()
         }
         Kind::Collect => {
-            let it = SimIter::new(&r.items, st.form % 6, st.b, !st.bit, r.panic_after);
+            let it = SimIter::new(&r.items, st.form % 8, st.b, !st.bit, r.panic_after);
             *s = T::from_iter(it);
             String::new()
         }
@@ -465,7 +465,7 @@ impl<'t> Exec<'t> {
                     items.truncate(rm);
                 }
                 r.panic_after = if st.a == 0 { None } else { Some(((st.a - 1) as usize) % (items.len() + 1)) };
-                if st.form % 6 == 5 {
+                if st.form % 8 == 5 {
                     // an iterator that lies about its lower bound breaks its own contract: invariants only
                     r.want_len = Some(base + items.len());
                 } else if r.panic_after.is_none() {
@@ -1057,7 +1057,7 @@ impl<'t> Exec<'t> {
             return;
         }
         let n = self.holders[h].model.len();
-        let which = st.a % 5;
+        let which = st.a % 6;
         let idx = n + (st.b as usize) % 70 + if which >= 2 { 1 } else { 0 };
         let mut subj = std::mem::replace(&mut self.holders[h].subj, fresh_any(0, &[]));
         let r = any!(&mut subj, s => guard(|| {
@@ -1066,11 +1066,12 @@ impl<'t> Exec<'t> {
                 1 => s.set(idx, b2bit(st.bit)),
                 2 => { let _ = s.copy_range(0..idx); }
                 3 => { let _ = s.copy_range(idx..idx); }
-                _ => { let _ = s.split_off(idx); }
+                4 => { let _ = s.split_off(idx); }
+                _ => { let _ = s.copy_range(idx..n); }
             }
         }));
         self.holders[h].subj = subj;
-        let name = ["get", "set", "copy_range.end", "copy_range.start", "split_off"][which as usize];
+        let name = ["get", "set", "copy_range.end", "copy_range.both", "split_off", "copy_range.start"][which as usize];
         self.bump("c19_out_of_range_attempts");
         self.evaluated("C19");
         self.out.nontrivial = true;
